@@ -1048,10 +1048,13 @@ impl TypedExpr {
                                     circuit.push_and(all_bits_except_msb_are_zero, not_w);
                             }
                             let result_is_signed = result[0];
-                            let not_all_bits_except_msb_are_zero =
-                                circuit.push_not(all_bits_except_msb_are_zero);
-                            let too_large_for_signed_representation = circuit
-                                .push_and(result_is_signed, not_all_bits_except_msb_are_zero);
+                            // a magnitude with the MSB set is only representable as the smallest
+                            // value, i.e. if all other bits are 0 and the result is negative:
+                            let is_smallest_value =
+                                circuit.push_and(all_bits_except_msb_are_zero, is_result_neg);
+                            let not_smallest_value = circuit.push_not(is_smallest_value);
+                            let too_large_for_signed_representation =
+                                circuit.push_and(result_is_signed, not_smallest_value);
                             overflow =
                                 circuit.push_or(overflow, too_large_for_signed_representation);
                             let result_negated = circuit.push_negation_circuit(&result);
